@@ -528,6 +528,9 @@ func (g *gen) mutate(valid map[string]any, v1 bool, kind string) (m mutated, ok 
 			fields = append(fields, f)
 		}
 		sortStrings(fields)
+		if len(fields) == 0 {
+			return m, false
+		}
 		f := g.pick(fields)
 		if v1 {
 			if f == "resynchronizationPeriod" && false {
